@@ -451,6 +451,10 @@ def main(tier: str, only=None) -> int:
         "evaluations": n_pairs, "distinct_nontrivial": sum(1 for r in results for rec in r["records"] if rec.get("fired")),
         "verdicts": counts, "queries": solver, "rules": RULES, "applications_total": fired, "side_verdicts": side,
     })
+    if not only or only.startswith("c07.x"):
+        from vp import xh
+        xh.run_side_obligations(run, ["vp.harness.c07_alloc"], tier, only, "allocator_lemmas",
+                                "CrossHair (z3): one step of the as_function overload allocator from an arbitrary set of existing functions")
     run.assumptions += ["rule equivalence p == r is itself decided on the k=1 host (not assumed)",
                         "hosts enumerated (k<=3 instances, If depth<=2, Loop, local function, name clash); values decided by z3",
                         "metadata merging is not checked"]
